@@ -1215,23 +1215,26 @@ result_t NumberDataType::parseInput(const string inputStr, unsigned int* parsedV
       errno = 0;
       if (m_divisor == 1) {
         if (hasFlag(SIG)) {
-          long signedValue = strtol(str, &strEnd, 0);
-          if (errno == ERANGE
-          || (m_bitCount != 32 && (signedValue < 0L ? (signedValue < -(1L << (m_bitCount - 1)))
-            : (signedValue >= (1L << (m_bitCount - 1)))
-          ))) {
+          long long signedValue = strtoll(str, &strEnd, 0);
+          long long limit = 1LL << (m_bitCount - 1);
+          if (errno == ERANGE || signedValue < -limit || signedValue >= limit) {
             return RESULT_ERR_OUT_OF_RANGE;  // value out of range
           }
           if (signedValue < 0 && m_bitCount != 32) {
-            value = (unsigned int)(signedValue + (1L << m_bitCount));
+            value = (unsigned int)(signedValue + (1LL << m_bitCount));
           } else {
             value = (unsigned int)signedValue;
           }
         } else {
-          value = (unsigned int)strtoul(str, &strEnd, 0);
-          if (errno == ERANGE || (m_bitCount != 32 && value >= (1U << m_bitCount))) {
-            return RESULT_ERR_OUT_OF_RANGE;
+          const char* first = str;
+          while (isspace(*first)) {
+            first++;
           }
+          unsigned long long unsignedValue = strtoull(str, &strEnd, 0);
+          if (errno == ERANGE || (*first == '-' && unsignedValue != 0) || unsignedValue >= (1ULL << m_bitCount)) {
+            return RESULT_ERR_OUT_OF_RANGE;  // value out of range (strtoull negates values with leading minus)
+          }
+          value = (unsigned int)unsignedValue;
         }
         if (strEnd == nullptr || strEnd == str || (*strEnd != 0 && *strEnd != '.')) {
           return RESULT_ERR_INVALID_NUM;  // invalid value
